@@ -126,6 +126,9 @@ def replay(case, ctx):
 def make_target(A, rep, rng, m):
     g = gq.nx_from_adj(A)
     if rep == "g":
+        if rng.random() < 0.4 and A.shape[0] >= 2:
+            # node labels inserted in a permuted order: qubit i is the i-th inserted node, A is the adjacency in that order
+            g = gq.nx_from_adj(A, [int(v) for v in rng.permutation(A.shape[0])])
         return m["QuantumState"](g, rep_type="g")
     if rep == "dm":
         return m["QuantumState"](dense.ket2dm(dense.graph_state_vec(A)), rep_type="dm")
